@@ -519,7 +519,7 @@ fn walk_tokens_self(cx: &mut Ctx, ts: TokenStream) {
 struct FnInfo<'x> {
     in_trait_impl: bool,
     key: String,
-    sig: &'x syn::Signature,
+    sig: Option<&'x syn::Signature>,
     block: Option<&'x syn::Block>,
     span: Span,
 }
@@ -531,7 +531,7 @@ fn apply_contract(cx: &mut Ctx, f: &FnInfo, contract: Option<&Value>, mutself: b
             // trait method declaration without body: splice spec before the `;`
             if let Some(c) = contract {
                 if let Some(ret) = c.get("ret").and_then(|v| v.as_str()) {
-                    if let syn::ReturnType::Type(_, ty) = &f.sig.output {
+                    if let Some(syn::ReturnType::Type(_, ty)) = f.sig.map(|s| &s.output) {
                         let (a, b) = cx.range(ty.span());
                         cx.push(a, a, format!("({}: ", ret), "R1.ret");
                         cx.push(b, b, ")", "R1.ret");
@@ -549,7 +549,7 @@ fn apply_contract(cx: &mut Ctx, f: &FnInfo, contract: Option<&Value>, mutself: b
     };
     let (bs, be) = cx.range(block.span());
     if mutself {
-        if let Some(syn::FnArg::Receiver(r)) = f.sig.inputs.first() {
+        if let Some(syn::FnArg::Receiver(r)) = f.sig.and_then(|s| s.inputs.first()) {
             if let Some(m) = &r.mutability {
                 if r.reference.is_none() {
                     let (a, _) = cx.range(m.span());
@@ -565,8 +565,8 @@ fn apply_contract(cx: &mut Ctx, f: &FnInfo, contract: Option<&Value>, mutself: b
         Some(c) => c,
         None => return,
     };
-    if let Some(ret) = c.get("ret").and_then(|v| v.as_str()) {
-        if let syn::ReturnType::Type(_, ty) = &f.sig.output {
+    if let (Some(ret), Some(sig)) = (c.get("ret").and_then(|v| v.as_str()), f.sig) {
+        if let syn::ReturnType::Type(_, ty) = &sig.output {
             let (a, b) = cx.range(ty.span());
             cx.push(a, a, format!("({}: ", ret), "R1.ret");
             cx.push(b, b, ")", "R1.ret");
@@ -841,6 +841,137 @@ fn main() {
             let mut cx = Ctx::new(&src);
             cx.float = float && !sel["nofloat"].as_bool().unwrap_or(false);
             cx.macro_map = macro_map.clone();
+            if kind == "lift" {
+                // R6/R8: lift a closure bound to a `let` or the body of loop k of a function into a free fn
+                let want_ty = sel["type"].as_str();
+                let want_tr = sel["trait"].as_str();
+                let want_fn = sel["fn"].as_str().unwrap_or("");
+                let mut the_fn: Option<(&syn::Block, Span)> = None;
+                for it in items.iter() {
+                    match it {
+                        syn::Item::Impl(i) if want_ty.is_some() => {
+                            let (tr, ty) = impl_names(i);
+                            if tr.as_deref() == want_tr && Some(ty.as_str()) == want_ty {
+                                for ii in i.items.iter() {
+                                    if let syn::ImplItem::Fn(f) = ii {
+                                        if f.sig.ident == want_fn {
+                                            the_fn = Some((&f.block, f.span()));
+                                        }
+                                    }
+                                }
+                            }
+                        }
+                        syn::Item::Fn(f) if want_ty.is_none() => {
+                            if f.sig.ident == want_fn {
+                                the_fn = Some((&f.block, f.span()));
+                            }
+                        }
+                        _ => {}
+                    }
+                }
+                let lname = sel["name"].as_str().unwrap_or("lifted").to_string();
+                let (fblock, fspan) = match the_fn {
+                    Some(x) => x,
+                    None => {
+                        errors.push(format!("ANCHOR-LOST {}: lift: fn {} not found", file, want_fn));
+                        continue;
+                    }
+                };
+                // locate the block
+                struct LetFinder<'q> { name: String, found: Option<&'q syn::Block> }
+                impl<'ast> Visit<'ast> for LetFinder<'ast> {
+                    fn visit_local(&mut self, l: &'ast syn::Local) {
+                        if let syn::Pat::Ident(pi) = &l.pat {
+                            if pi.ident == self.name {
+                                if let Some(init) = &l.init {
+                                    if let syn::Expr::Closure(c) = &*init.expr {
+                                        if let syn::Expr::Block(b) = &*c.body {
+                                            self.found = Some(&b.block);
+                                        }
+                                    }
+                                }
+                            }
+                        }
+                        visit::visit_local(self, l);
+                    }
+                }
+                struct LoopBlocks<'q> { blocks: Vec<&'q syn::Block> }
+                impl<'ast> Visit<'ast> for LoopBlocks<'ast> {
+                    fn visit_expr_while(&mut self, e: &'ast syn::ExprWhile) { self.blocks.push(&e.body); visit::visit_expr_while(self, e); }
+                    fn visit_expr_for_loop(&mut self, e: &'ast syn::ExprForLoop) { self.blocks.push(&e.body); visit::visit_expr_for_loop(self, e); }
+                    fn visit_expr_loop(&mut self, e: &'ast syn::ExprLoop) { self.blocks.push(&e.body); visit::visit_expr_loop(self, e); }
+                    fn visit_expr_closure(&mut self, _e: &'ast syn::ExprClosure) {}
+                }
+                let block: Option<&syn::Block> = if let Some(n) = sel["let"].as_str() {
+                    let mut lf = LetFinder { name: n.to_string(), found: None };
+                    lf.visit_block(fblock);
+                    lf.found
+                } else {
+                    let k = sel["loop"].as_u64().unwrap_or(0) as usize;
+                    let mut lb = LoopBlocks { blocks: vec![] };
+                    lb.visit_block(fblock);
+                    lb.blocks.get(k).copied()
+                };
+                let block = match block {
+                    Some(b) => b,
+                    None => {
+                        errors.push(format!("ANCHOR-LOST {}: lift: block not found in {}", file, want_fn));
+                        continue;
+                    }
+                };
+                let mut cx = Ctx::new(&src);
+                cx.float = float && !sel["nofloat"].as_bool().unwrap_or(false);
+                cx.macro_map = macro_map.clone();
+                {
+                    let mut st = AttrStripper { cx: &mut cx };
+                    st.visit_block(block);
+                }
+                let fi = FnInfo { in_trait_impl: false, key: lname.clone(), sig: None, block: Some(block), span: block.span() };
+                let c = contracts.get(&lname);
+                if c.is_some() {
+                    used_contracts.insert(lname.clone());
+                }
+                apply_contract(&mut cx, &fi, c, false);
+                if sel["self_as_this"].as_bool().unwrap_or(false) {
+                    walk_tokens_self(&mut cx, block.to_token_stream());
+                }
+                {
+                    cx.boolops_all = boolops.contains("*");
+                    let b = boolops.contains(&lname);
+                    let mut rw = Rewriter { cx: &mut cx, boolops: b, in_macro: false };
+                    rw.visit_block(block);
+                }
+                let (bs, be) = cx.range(block.span());
+                let (text, mut linemap, mut counts) = apply_edits(&cx, bs, be);
+                let header = sel["header"].as_str().unwrap_or("");
+                // header on its own line(s), then the (possibly spec-prefixed) block
+                let header_lines = header.matches('\n').count() + 1;
+                let mut lm2 = vec![0usize; header_lines];
+                lm2.append(&mut linemap);
+                *counts.entry(if sel["let"].is_string() { "R6.closurelift".to_string() } else { "R8.looplift".to_string() }).or_insert(0) += 1;
+                errors.extend(cx.errors.iter().map(|e| format!("{}: {}", file, e)));
+                let (fs, _fe) = cx.range(fspan);
+                let _ = fs;
+                segments.push(json!({
+                    "key": format!("lift {}::{} -> {}", want_ty.unwrap_or(""), want_fn, lname),
+                    "file": file,
+                    "start_line": cx.line_of(bs),
+                    "end_line": cx.line_of(be.saturating_sub(1)),
+                    "orig": &src[bs..be],
+                    "text": format!("{}\n{}", header, text),
+                    "linemap": lm2,
+                    "rewrites": counts,
+                    "fns": [json!({
+                        "key": lname,
+                        "start_line": cx.line_of(bs),
+                        "end_line": cx.line_of(be.saturating_sub(1)),
+                        "orig": &src[bs..be],
+                        "has_contract": c.is_some(),
+                        "in_trait_impl": false,
+                    })],
+                }));
+                continue;
+            }
             let mut found: Vec<&syn::Item> = vec![];
             for it in items.iter() {
                 let ok = match (kind, it) {
@@ -903,7 +1034,7 @@ fn main() {
                     fninfos.push(FnInfo {
                         in_trait_impl: false,
                         key: f.sig.ident.to_string(),
-                        sig: &f.sig,
+                        sig: Some(&f.sig),
                         block: Some(&f.block),
                         span: f.span(),
                     });
@@ -937,7 +1068,7 @@ fn main() {
                                     fninfos.push(FnInfo {
                                         in_trait_impl: tr.is_some(),
                                         key,
-                                        sig: &f.sig,
+                                        sig: Some(&f.sig),
                                         block: Some(&f.block),
                                         span: f.span(),
                                     });
@@ -992,7 +1123,7 @@ fn main() {
                                 fninfos.push(FnInfo {
                                     in_trait_impl: false,
                                     key: format!("{}::{}", t.ident, n),
-                                    sig: &f.sig,
+                                    sig: Some(&f.sig),
                                     block: f.default.as_ref(),
                                     span: f.span(),
                                 });
